@@ -4,33 +4,82 @@ ASSUMPTIONS = [
     "atomicity: one specification action = one thread of the real code running between two points where "
     "the rig can hold it (calls into metadata store / client / consumer, vhook points); data races between "
     "two adjacent statements are not explored",
-    "rig A: the real stream/observer/checkpoint code runs against a fake couchbase.Client, a fake metadata "
-    "backend and a fake consumer written for this harness",
+    "rig A: the real dcp.Start/close, stream, observer and checkpoint code runs against a fake couchbase.Client, "
+    "a fake metadata backend and a fake consumer written for this harness (dcp object built by VerifNewDcp)",
     "TLC explores the specification exhaustively only within the stated small constants",
+    "promptness: a goroutine that received a finish token runs to its next blocking point before anything else "
+    "happens, no Save call spans the re-open of a rebalance, dcp.close does not overlap that re-open "
+    "(the last is known finding F8; the first, F6; both are explored separately under Gaps)",
 ]
 
+
+def mc(cfg, note, timeout=3000):
+    return {"module": cfg, "cfg": cfg, "note": note, "timeout": timeout}
+
+
+def sim(cfg, num, depth, isolate=False, salt=0):
+    return {"module": cfg, "cfg": cfg, "num": num, "depth": depth, "isolate": isolate, "salt": salt}
+
+
+def scen(cfg, file, isolate=False, gaps=False):
+    return {"module": cfg, "cfg": cfg, "file": file, "isolate": isolate, "gaps": gaps}
+
+
 FAMILIES = {
-    # Core.tla, data path: observer + offsets + dirty tracking + multi-step save + crash/restart
+    # Core.tla, data path: offsets + dirty tracking + multi-step save + crash/restart, fixed server history
     "data": {
-        "driver": "core",
-        "monitor": "MonTrace",
+        "driver": "core", "monitor": "MonTrace",
         "exhaustive": {
-            "quick": [{"module": "MCDataQ", "cfg": "MCDataQ",
-                       "note": "2 vBuckets (user,user | user,sys,adv), 2 savers, <=2 saves, <=2 acks, 1 crash, store may fail"}],
-            "thorough": [{"module": "MCData", "cfg": "MCData", "timeout": 3000,
-                          "note": "2 vBuckets, 2 savers, <=3 saves, <=3 acks, 1 crash, store may fail"}],
+            "quick": [mc("MCDataQ", "2 vBuckets (user,user | user,sys,adv), 1 saver, <=2 saves, <=2 acks, 1 crash, store may fail")],
+            "thorough": [mc("MCData", "2 vBuckets, 2 savers, <=2 saves, <=2 acks, 1 crash, store may fail", 5000)],
         },
-        "simulate": {
-            "quick": [{"module": "SimData", "cfg": "SimData", "num": 400, "depth": 40}],
-            "thorough": [{"module": "SimData", "cfg": "SimData", "num": 6000, "depth": 48}],
+        "simulate": {"quick": [sim("SimData", 150, 40)], "thorough": [sim("SimData", 2500, 48)]},
+        "scenarios": [scen("ReplayData", "data.ndjson")],
+    },
+    # Core.tla, the server generates every event sequence: snapshot layouts, kinds, key classes, old events,
+    # events outside their snapshot, rollback on open, crash + resume mid-snapshot
+    "gen": {
+        "driver": "core", "monitor": "MonTrace",
+        "exhaustive": {
+            "quick": [mc("MCGenQ", "1 vBucket, seqnos <=2, all kinds x key classes x old, bad events, rollback, 1 crash")],
+            "thorough": [mc("MCGen", "1 vBucket, seqnos <=3, all kinds x key classes x old, bad events, rollback, 1 crash", 5000)],
         },
-        "scenarios": [{"module": "ReplayData", "cfg": "ReplayData", "file": "data.ndjson"}],
+        "simulate": {"quick": [sim("SimGen", 150, 36)], "thorough": [sim("SimGen", 2500, 44), sim("SimGen2", 1200, 44)]},
+        "scenarios": [],
+    },
+    # Core.tla, lifecycle: notifications from bus / API / timer, close, re-open, stream ends, Close()
+    "life": {
+        "driver": "core", "monitor": "MonTrace",
+        "exhaustive": {
+            "quick": [mc("MCLifeQ", "2 vBuckets, <=1 notification, 1 end, Close(), auto checkpoint, 1 event")],
+            "thorough": [mc("MCLife", "2 vBuckets, <=2 notifications (bus+api), 2 ends, Close(), 1 save, 1 ack", 5000)],
+        },
+        "simulate": {"quick": [sim("SimLife", 60, 45, isolate=True)], "thorough": [sim("SimLife", 800, 55, isolate=True)]},
+        "scenarios": [scen("ReplayLife", "life.ndjson", isolate=True), scen("ReplayLifeGaps", "life_gaps.ndjson", isolate=True, gaps=True)],
+    },
+    # Core.tla, start-up faults: failing load / seqno / failover-log queries, failing stream open, checkpoint ahead
+    "fault": {
+        "driver": "core", "monitor": "MonTrace",
+        "exhaustive": {
+            "quick": [mc("MCFaultLatestQ", "2 vBuckets, auto-reset latest, <=2 injected failures / flushes, 1 crash")],
+            "thorough": [mc("MCFaultLatestQ", "latest"), mc("MCFaultQ", "2 vBuckets, auto-reset earliest, <=2 injected failures / flushes, 1 crash", 5000)],
+        },
+        "simulate": {"quick": [sim("SimFault", 60, 40, isolate=True), sim("SimFaultLatest", 40, 40, isolate=True)],
+                     "thorough": [sim("SimFault", 600, 48, isolate=True), sim("SimFaultLatest", 400, 48, isolate=True)]},
+        "scenarios": [],
     },
 }
 
 PROPS = {
-    "C01": {"family": "data"},
-    "C04": {"family": "data"},
-    "C05": {"family": "data"},
-    "C06": {"family": "data"},
+    "C01": {"families": ["data", "gen"]},
+    "C03": {"families": ["gen", "life"]},
+    "C04": {"families": ["data", "gen", "life"]},
+    "C05": {"families": ["data", "life"]},
+    "C06": {"families": ["gen", "data"]},
+    "C08": {"families": ["gen"]},
+    "C11": {"families": ["life"]},
+    "C12": {"families": ["life"]},
+    "C13": {"families": ["life"]},
+    "C14": {"families": ["gen"]},
+    "C15": {"families": ["fault"]},
 }
